@@ -152,6 +152,65 @@ def thresholds(leaves):
     return ts
 
 
+# the piecewise-linear families accept zero widths (a <= b <= c <= d): shoulders and steps.  Core points per family.
+CORES = {
+    'a_mf_trap': ([p1, p2, p3], [('b', B), ('c', C)]),
+    'a_mf_tri': ([p1, p2], [('b', B)]),
+    'a_mf_lins': ([p1], [('b', B)]),
+    'a_mf_linz': ([p1], [('a', A)]),
+}
+
+
+def core_value(rep, fn, leaves, loc):
+    """F2c: "exactly one on its core" also when neighbouring parameters coincide (left / right shoulder, step): for every subset of
+    widths set to zero the path taken at each core point is selected by evaluating the path conditions exactly, and its value there
+    must be 1 (a path that divides by the vanished width is a violation, not a value)."""
+    import itertools
+    if fn.name not in CORES:
+        return
+    gaps, cores = CORES[fn.name]
+    probs, n = [], 0
+    for k in range(1, len(gaps) + 1):
+        for zero in itertools.combinations(gaps, k):
+            sub = {g: 0 for g in zero}
+            for cname, cval in cores:
+                xv = sp.sympify(cval).subs(sub)
+                taken = []
+                for lf in leaves:
+                    ok = True
+                    for c in lf.pc:
+                        d = sp.simplify((sp.sympify(c.a) - sp.sympify(c.b)).subs(X, cval).subs(sub))
+                        sg = sign_of(d)
+                        if sg is None:
+                            raise Unsupported('cannot decide %s at the core point %s with %s = 0' % (c, cname, ', '.join(map(str, zero))))
+                        if not {'<': sg < 0, '<=': sg <= 0, '>': sg > 0, '>=': sg >= 0, '==': sg == 0, '!=': sg != 0}[c.rel()]:
+                            ok = False
+                            break
+                    if ok:
+                        taken.append(lf)
+                n += 1
+                what = 'x = %s with %s' % (cname, ' and '.join('%s = 0' % g for g in zero))
+                if len(taken) != 1:
+                    probs.append('%s: %d paths' % (what, len(taken)))
+                    continue
+                num, den = sp.fraction(sp.together(sp.sympify(taken[0].ret)))
+                dv = sp.simplify(den.subs(X, cval).subs(sub))
+                if dv == 0:
+                    probs.append('%s: the value is %s, a division by the vanished width' % (what, taken[0].ret))
+                    continue
+                v = sp.simplify(sp.sympify(taken[0].ret).subs(X, cval).subs(sub))
+                if v != 1:
+                    probs.append('%s: the value on the core is %s, expected 1' % (what, v))
+    names = {p1: 'b - a', p2: 'c - b', p3: 'd - c'}
+    if probs:
+        txt = '; '.join(probs[:3])
+        for g, nm in names.items():
+            txt = txt.replace('%s = 0' % g, '%s = 0' % nm)
+        rep.bad('F2c', fn.name, txt, loc=loc, key='%s: core value with coinciding parameters' % fn.name)
+    else:
+        rep.ok('F2c', fn.name, 'value 1 at every core point for every subset of zero widths (%d cases)' % n, loc=loc, sample={'fn': fn.name, 'cases': n})
+
+
 def piecewise(rep, fn, lk, pnames, pvals, table):
     dom = alg.Alg()
     dom.syms['x'] = X
@@ -227,6 +286,7 @@ def piecewise(rep, fn, lk, pnames, pvals, table):
             probs.append('discontinuous at x = %s: values %s' % (t, vals))
         else:
             ncont += 1
+    core_value(rep, fn, leaves, loc)
     if probs:
         rep.bad('F2', name, '; '.join(probs[:3]), loc=loc, key='%s: shape' % name)
     else:
@@ -655,6 +715,7 @@ def run(ctx):
     rep.floor('F5b', 1)
     rep.floor('F5c', 1)
     rep.floor('F5d', 1)
+    rep.floor('F2c', 4)
     rep.floor('F2', 10)
     rep.floor('F2s', 5)
     rep.floor('F3', 9)
